@@ -6,6 +6,7 @@ import re
 import channels
 import hirq
 import ridseq
+import symmetry
 from cfg import CFG
 from mirq import Flow
 from props import C01
@@ -60,6 +61,35 @@ def lets_of(h):
     return {y["pat"].get("lid"): y["init"] for y in hirq.walk(h["body"]) if y.get("k") == "let" and y.get("init") and y["pat"].get("k") == "bind"}
 
 
+def closure_templates(fb, d, h, name_expr, lets):
+    """Name templates of a sink whose name is `param(...)`, a call of a closure parameter of fn d: rendered from the
+    closure each caller passes."""
+    n = hirq.strip(name_expr)
+    for _ in range(4):
+        if n.get("k") == "path" and n.get("lid") in lets:
+            n = hirq.strip(lets[n["lid"]])
+    if not (n.get("k") == "call" and n.get("lid") is not None and not n.get("def")):
+        return []
+    pidx = [i for i, p in enumerate(h["params"]) if p.get("lid") == n["lid"]]
+    if not pidx:
+        return []
+    pi = pidx[0]
+    has_self = h["params"] and h["params"][0].get("name") == "self"
+    out = []
+    for d2, h2 in fb.hir.items():
+        for c in hirq.calls(h2["body"]):
+            if c.get("def") == d:
+                args = c.get("args", [])
+                ai = pi - 1 if (has_self and c.get("k") == "mcall") else pi
+                if 0 <= ai < len(args):
+                    a = hirq.strip(args[ai])
+                    if a.get("k") == "closure":
+                        body = a["body"]
+                        e = body.get("expr") if body.get("k") == "block" and not body.get("stmts") else body
+                        out.append((render(fb, e, lets_of({"body": body})), "%s:%s" % (h2["file"], c["ln"]), d2))
+    return out
+
+
 def part_templates(fb):
     """(template, where, fn) for every part the writer can create under a name it builds itself."""
     out = []
@@ -72,6 +102,12 @@ def part_templates(fb):
             args = c.get("args", [])
             if nm in SINKS and args and not d.endswith("::" + nm):
                 t = render(fb, args[0], lets)
+                if t == "{}":
+                    # the name is produced by a naming closure the callers pass in: one template per caller
+                    ts = closure_templates(fb, d, h, args[0], lets)
+                    if ts:
+                        out.extend((t2, w, d2) for t2, w, d2 in ts)
+                        continue
                 out.append((t, "%s:%s" % (h["file"], c["ln"]), d))
             elif nm in ("make_file_from_writer", "make_file_from_bin") and args and d.startswith("writer::xlsx::"):
                 t = render(fb, args[0], lets)
@@ -242,7 +278,7 @@ def rule_rid_pairs(chk, fb):
             kind_ok = isinstance(rtype, str) and rtype.rstrip("/").rsplit("/", 1)[-1] == kind
             gx = _norm_guards(e)
             gr = _norm_guards(r)
-            guard_ok = gx == gr or gx <= gr or gr <= gx
+            guard_ok = gx == gr
             loop_ok = bool(e["loops"]) == bool(r["loops"])
             ok = kind_ok and guard_ok and loop_ok and followed and rf
             chk.ob(rc, "%s:%s#%d" % (short, e["label"], i), ok, where="%s:%s" % (fb.hir[xml_fn]["file"], e["ln"]),
@@ -535,13 +571,14 @@ def rule_fresh_names(chk, fb, rid="C02.l"):
     r = chk.rule(
         rid,
         "numbered part names are fresh: every WriterManager method that adds a part under a computed (numbered) name does so only after check_file_exist of that very name said no, or takes the number from a method that returns only numbers tested that way",
-        floor=8,
+        floor=5,
     )
     WM = "structs::writer_manager::WriterManager"
     impl = {d: b for d, b in fb.mir.items() if (b.get("self_ty") or "").startswith(WM) and b["kind"] == "AssocFn"}
 
     def fmt_calls(at):
-        return {a for a in at if a[0] == "call" and a[1] == "std::fmt::format"}
+        """calls that compute a name: format!, an invoked naming closure, a crate helper returning the name"""
+        return {a for a in at if a[0] == "call" and (a[1] == "std::fmt::format" or a[1] in ("std::ops::Fn::call", "std::ops::FnMut::call", "std::ops::FnOnce::call_once") or (a[1] in fb.mir and fb.ty(fb.mir[a[1]]["locals"][0]["t"]) == "std::string::String"))}
 
     is_check = lambda a: a[1].endswith("::check_file_exist")
     # methods that hand out tested numbers: every return is decided by a negative test of a name built from the returned counter
@@ -608,5 +645,7 @@ def run(chk, fb, tier):
     rule_quote(chk, fb)
     rule_sheet_ids(chk, fb)
     rule_fresh_names(chk, fb)
+    symmetry.rule_enum_tables(chk, fb, "C02.m")
+    symmetry.rule_enum_spec(chk, fb, "C02.m.spec", "write")
     chk.assume("zip and quick-xml produce well-formed containers / XML for the events they are given")
     chk.note("not decided: that an independent reader decodes the file to the model (value-level); index-in-table bounds are runtime values")
